@@ -23,6 +23,13 @@ def two_max(acc, cur, components):
     return len(components) < 2
 
 
+def overlap_falsy(acc, cur, components):
+    """Accepts with a truthy non-bool, rejects with falsy non-bools (0, None, empty list) -- still a valid predicate."""
+    if acc.start <= cur.start <= acc.end + 1:
+        return acc.end + 2 - cur.start          # an overlap length: 1 or more
+    return (0, None, [])[cur.start % 3]
+
+
 CRITERIA = [
     ("default", None),
     ("seqid+any", lambda: [mc.seqid, mc.overlap_any_inclusive]),
@@ -33,6 +40,8 @@ CRITERIA = [
     ("any_thr1", lambda: [mc.seqid, mc.overlap_any_threshold(1)]),
     ("start_thr1", lambda: [mc.seqid, mc.overlap_start_threshold(1)]),
     ("custom_two_max", lambda: [mc.seqid, mc.overlap_end_inclusive, two_max]),
+    ("custom_falsy", lambda: [mc.seqid, overlap_falsy]),
+    ("no_criteria", lambda: []),
 ]
 
 # reference predicates written from the criteria's documentation: (acc_start, acc_end, f_start, f_end, n_components)
@@ -46,6 +55,8 @@ REF = {
     "any_thr1": lambda a, b, s, e, n: a - 1 <= e + 1 <= b + 1 or a <= s <= b + 1,
     "start_thr1": lambda a, b, s, e, n: a - 1 <= e + 1 <= b + 1,
     "custom_two_max": lambda a, b, s, e, n: a <= s <= b + 1 and n < 2,
+    "custom_falsy": lambda a, b, s, e, n: a <= s <= b + 1,
+    "no_criteria": lambda a, b, s, e, n: True,         # nothing to object: everything joins the first run
 }
 PATTERNS = ("uniform", "last_strand", "last_type", "last_seqid")
 HISTORIES = ("fresh", "premerged_exact", "twice", "outputs", "after_children_bp")
@@ -105,7 +116,7 @@ def ref_runs(rows, cname, default_keys):
         a = min(rows[j][3] for j in cur)
         b = max(rows[j][4] for j in cur)
         first = rows[cur[0]]
-        ok = first[0] == sq and REF[cname](a, b, s, e, len(cur))
+        ok = (first[0] == sq or cname == "no_criteria") and REF[cname](a, b, s, e, len(cur))
         if default_keys:
             ok = ok and first[1] == st and first[2] == ft
         if ok:
@@ -275,6 +286,8 @@ def body_db(ch, ctx):
         before = dbutil.canon(db)
         merge = op.endswith("merge")
         got = db.children_bp("t1", child_featuretype="exon", merge=merge)
+        positional = db.children_bp("t1", "exon", merge)            # the same call with positional arguments
+        ctx.check(positional == got, "children_bp-positional-call-differs", sig, keyword=got, positional=positional)
         exp = len({p for s, e in ms for p in range(s, e + 1)}) if merge else sum(e - s + 1 for s, e in ms)
         ctx.check(got == exp, "children_bp-differs", sig, intervals=list(ms), got=got, expected=exp)
         ctx.check(dbutil.canon(db) == before, "database-modified-by-children_bp", sig)
